@@ -27,6 +27,7 @@ type Profile struct {
 	AskSize  [2]int
 	Reloads  bool
 	Closing  bool
+	PreemptScenario int // permille of cases that start with the directed preemption world
 	Scenario int // permille of cases that start with the directed interrupted-swap prefix
 	SwapTouch int // permille: how often a release/update may target the real half of an in-flight swap
 	Restart  int // permille: how often an ask may be sent to a Completing application (restart)
